@@ -221,6 +221,7 @@ func runScript(s script) *result {
 	var peerDone sync.WaitGroup
 	peerDone.Add(1)
 	var peerGotClose atomic.Int32
+	var peerStalled atomic.Bool
 	srv := httptest.NewServer(http.HandlerFunc(func(w http.ResponseWriter, r *http.Request) {
 		defer peerDone.Done()
 		c, err := up.Upgrade(w, r, nil)
@@ -230,6 +231,13 @@ func runScript(s script) *result {
 		defer c.Close()
 		c.SetCloseHandler(func(code int, text string) error {
 			peerGotClose.Store(int32(code))
+			return nil
+		})
+		c.SetPingHandler(func(d string) error {
+			if peerStalled.Load() {
+				return nil // a peer that went silent: no pong
+			}
+			_ = c.WriteControl(websocket.PongMessage, []byte(d), time.Now().Add(time.Second))
 			return nil
 		})
 		go func() {
@@ -331,6 +339,19 @@ func runScript(s script) *result {
 			l.add("CloseStart", 0, 1, "")
 			cr := vh.Call(callDeadline, func() { sut.CloseDataConnection(4001, "close") })
 			l.add("CloseEnd", 0, 1, map[bool]string{true: "hang", false: "ok"}[cr.Hung])
+		case "peerSilent":
+			// no pong, no FIN: only the read deadline (pong wait) notices; the ping goes out after 50 s, the deadline is 60 s
+			l.add("PeerSilent", 0, 0, "")
+			peerStalled.Store(true)
+			for t0 := time.Now(); time.Since(t0) < 80*time.Second && !l.has("ReportError", 0); time.Sleep(200 * time.Millisecond) {
+			}
+		case "idleLong":
+			// control: the peer answers the pings, an idle connection outlives the pong wait
+			l.add("IdleLong", 0, 0, "")
+			time.Sleep(70 * time.Second)
+			if write(1, 50) == "ok" {
+				time.Sleep(50 * time.Millisecond)
+			}
 		case "localCloseLateRead":
 			// the peer's frame 7 is read off the socket, the read call is held; local close; then the read returns
 			fc.holdRead.Store(true)
